@@ -19,18 +19,19 @@ EXTENDS Naturals, Sequences, FiniteSets, TLC, Json
 CONSTANTS MaxLen, CfgVariants, DeepCfg
 
 Docs == {"c", "t"}                \* c = conftest.py, t = test_t.py next to it
-Versions == [d \in Docs |-> 1..4]
+Versions == [d \in Docs |-> IF d = "c" THEN 1..5 ELSE 1..4]
 Codes == {"undeclared-fixture", "circular-dependency", "scope-mismatch"}
 
 (* c1: a(); s(a) session-scoped      -> scope-mismatch in c
    c2: a(b); b(a)                     -> circular-dependency in c
    c3: a()                            -> clean
    c4: (no fixtures)                  -> clean, and `a` is no fixture any more
+   c5: a(b); b()                      -> clean: the SAME fixture names as c2, only the dependency edge b -> a is gone
    t1: test_1() uses a in its body    -> undeclared-fixture in t iff a is a visible fixture
    t2: test_1(a)                      -> clean
    t3: f(a) session-scoped fixture    -> scope-mismatch in t iff a (function-scoped) is visible
    t4: unparsable text                -> the findings of t's last valid version stay        *)
-ADefined(ver) == ver["c"] \in {1, 2, 3}
+ADefined(ver) == ver["c"] \in {1, 2, 3, 5}
 
 \* the version whose records are in effect for a document (last valid one)
 Effective(d, v, lastValid) == IF d = "t" /\ v = 4 THEN lastValid ELSE v
@@ -89,7 +90,7 @@ TracksLatest ==
 \* removing the cause clears the diagnostic on the next change of the document
 RemovingCauseClears ==
     hist # <<>> =>
-        /\ (Last.d = "c" /\ Last.v \in {3, 4} => published["c"] = {})
+        /\ (Last.d = "c" /\ Last.v \in {3, 4, 5} => published["c"] = {})
         /\ (Last.d = "t" /\ Last.v = 2 => published["t"] = {})
         /\ (Last.d = "t" /\ ~ADefined(ver) /\ Last.v # 4 => published["t"] = {})
 
